@@ -307,6 +307,120 @@ Proof.
   rewrite levelM_canon, Hr. cbn [rbind]. destruct rw as [|r rw]; [congruence|].
   cbn [mapM]. rewrite IH. reflexivity.
 Qed.
+(** *** integrands that throw, handlers inside enclosing integrands *)
+Lemma mapX_ext {A B} (f g : A -> res (option B)) l : (forall a, In a l -> f a = g a) -> mapX f l = mapX g l.
+Proof.
+  induction l as [|a l IH]; intros H; simpl; auto.
+  rewrite (H a (or_introl eq_refl)). apply rbind_ext. intros [b|]; auto.
+  rewrite IH; auto. intros c Hc. apply H. now right.
+Qed.
+
+(** an integrand that never throws: the collection of values is the one of the exception-free model *)
+Lemma mapX_lift {A B} (f : A -> res B) l : mapX (fun a => xlift (f a)) l = xlift (mapM f l).
+Proof.
+  induction l as [|a l IH]; simpl; auto.
+  destruct (f a) as [b| | |]; simpl; auto. rewrite IH. destruct (mapM f l); reflexivity.
+Qed.
+
+Lemma funX_two_col (f : T -> res (option T)) rw : two_col rw = true ->
+  gl_integrate_funX Ops f rw = rbind (mapX (fun r => f (nth0 Ops r 0)) rw) (fun ov => gl_valuesX Ops ov rw).
+Proof.
+  intros H. unfold gl_integrate_funX. f_equal. apply mapX_ext. intros r Hr.
+  pose proof (two_col_In rw r H Hr) as L. destruct r; [discriminate|reflexivity].
+Qed.
+
+(** every way of asking for one level's integral under a handler: compute the rule, evaluate the integrand at the nodes
+    in order until one evaluation does not return, form the weighted sum, apply the handler *)
+Lemma levelX_canon k n a b h (f : T -> res (option T)) :
+  gl_levelX Ops k n a b h f =
+  gl_handle h (rbind (gl_rule Ops (gl_order k n) a b) (fun rw =>
+    rbind (mapX (fun r => f (nth0 Ops r 0)) rw) (fun ov => gl_valuesX Ops ov rw))).
+Proof.
+  unfold gl_levelX. f_equal.
+  destruct k; cbn [gl_order]; try reflexivity;
+  (destruct (gl_rule Ops _ a b) as [rw| | |] eqn:E; cbn [rbind]; auto;
+   apply funX_two_col; eapply gl_rule_two_col; eauto).
+Qed.
+
+Lemma levelX_ext k n a b h (f g : T -> res (option T)) : (forall x, f x = g x) ->
+  gl_levelX Ops k n a b h f = gl_levelX Ops k n a b h g.
+Proof.
+  intros H. rewrite !levelX_canon. f_equal. apply rbind_ext. intros rw. f_equal. apply mapX_ext. intros r _. apply H.
+Qed.
+
+Lemma handle_lift (h : option T) (r : res T) : gl_handle h (xlift r) = xlift r.
+Proof. destruct h, r; reflexivity. Qed.
+
+(** a level whose integrand never throws is the level of the exception-free model, handler or not *)
+Lemma levelX_lift k n a b h (f : T -> res T) :
+  gl_levelX Ops k n a b h (fun x => xlift (f x)) = xlift (gl_levelM Ops k n a b f).
+Proof.
+  rewrite levelX_canon, levelM_canon.
+  replace (rbind (gl_rule Ops (gl_order k n) a b) (fun rw =>
+             rbind (mapX (fun r => xlift (f (nth0 Ops r 0))) rw) (fun ov => gl_valuesX Ops ov rw)))
+    with (xlift (rbind (gl_rule Ops (gl_order k n) a b) (fun rw =>
+             rbind (mapM (fun r => f (nth0 Ops r 0)) rw) (fun vals => gl_integrate_values Ops vals rw)))).
+  - apply handle_lift.
+  - destruct (gl_rule Ops (gl_order k n) a b) as [rw| | |]; cbn [rbind xlift]; auto.
+    rewrite (mapX_lift (fun r => f (nth0 Ops r 0)) rw).
+    destruct (mapM (fun r => f (nth0 Ops r 0)) rw); reflexivity.
+Qed.
+
+(** refinement: without exceptions the nest with handlers is the nest of the exception-free model (the handlers are
+    never used) *)
+Theorem nestX_pure (core : list T -> res T) levs : forall xs,
+  gl_nestX Ops levs (fun ys => xlift (core ys)) xs = xlift (gl_nest Ops (map fst levs) core xs).
+Proof.
+  induction levs as [|l levs IH]; intros xs; cbn [gl_nestX gl_nest map]; auto.
+  rewrite <- (levelX_lift _ _ _ _ (snd l)). apply levelX_ext. intros x. apply IH.
+Qed.
+
+Definition levX_same (l l' : @gl_levX T) : Prop := lev_same (fst l) (fst l') /\ snd l = snd l'.
+
+(** the overloads agree at every depth also when evaluations throw and handlers intervene *)
+Theorem nestX_overloads_agree (core : list T -> res (option T)) levs levs' : Forall2 levX_same levs levs' ->
+  forall xs, gl_nestX Ops levs core xs = gl_nestX Ops levs' core xs.
+Proof.
+  induction 1 as [|l l' levs levs' [[Ho Hl] Hh] _ IH]; intros xs; cbn [gl_nestX]; auto.
+  rewrite !levelX_canon. rewrite Ho, Hl, Hh. f_equal. apply rbind_ext. intros rw. f_equal. apply mapX_ext. intros r _. apply IH.
+Qed.
+
+(** a level under a handler never lets an exception out; without a handler the outcome is unchanged *)
+Theorem levelX_handled k n a b fb (f : T -> res (option T)) :
+  ~ (gl_levelX Ops k n a b (Some fb) f = Ok None) /\
+  (gl_levelX Ops k n a b None f = Ok None -> gl_levelX Ops k n a b (Some fb) f = Ok (Some fb)) /\
+  (~ (gl_levelX Ops k n a b None f = Ok None) -> gl_levelX Ops k n a b (Some fb) f = gl_levelX Ops k n a b None f).
+Proof.
+  rewrite !levelX_canon. set (r := rbind _ _). unfold gl_handle.
+  destruct r as [[v|]| | |]; repeat split; try congruence; intros H; try reflexivity; congruence.
+Qed.
+
+(** an exception thrown by the innermost integrand leaves every level that has no handler (each has a node) *)
+Definition lev_ok (l : @gl_lev T) : Prop :=
+  exists rw, gl_rule Ops (gl_order (fst (fst l)) (snd (fst l))) (fst (snd l)) (snd (snd l)) = Ok rw /\ rw <> [].
+
+Theorem nestX_throw_propagates (core : list T -> res (option T)) levs : (forall xs, core xs = Ok None) ->
+  List.Forall (fun l : @gl_levX T => lev_ok (fst l) /\ snd l = None) levs ->
+  forall xs, gl_nestX Ops levs core xs = Ok None.
+Proof.
+  intros Hc. induction 1 as [|l levs [(rw & Hr & Hne) Hh] _ IH]; intros xs; cbn [gl_nestX]; auto.
+  rewrite levelX_canon, Hr, Hh. cbn [rbind gl_handle]. destruct rw as [|r rw]; [congruence|].
+  cbn [mapX]. rewrite IH. reflexivity.
+Qed.
+
+(** a failed inner integration that is handled counts as its substitute value and nothing else: if the integrand of
+    the levels [inner] below a handler throws, then the nest equals the nest of the levels [outer] above the handler
+    applied to the constant substitute, whatever was evaluated inside the failed calls *)
+Theorem nestX_handled_failure (core : list T -> res (option T)) outer l fb inner :
+  (forall xs, core xs = Ok None) -> lev_ok l ->
+  List.Forall (fun l : @gl_levX T => lev_ok (fst l) /\ snd l = None) inner ->
+  forall xs, gl_nestX Ops (outer ++ (l, Some fb) :: inner) core xs = gl_nestX Ops outer (fun _ => Ok (Some fb)) xs.
+Proof.
+  intros Hc (rw & Hr & Hne) Hin. induction outer as [|o outer IH]; intros xs.
+  - cbn [app gl_nestX fst snd]. rewrite levelX_canon, Hr. cbn [rbind]. destruct rw as [|r rw]; [congruence|].
+    cbn [mapX]. rewrite (nestX_throw_propagates core inner Hc Hin). reflexivity.
+  - cbn [app gl_nestX]. apply levelX_ext. intros x. apply IH.
+Qed.
 End Generic.
 
 (** ** Part 2: the real-number instance *)
